@@ -19,7 +19,7 @@ Proof.
   remember (firstn i b) as pre in *. remember (skipn (S i) b) as post in *. remember (nth i b 0) as x in *.
   clear Heqpre Heqpost Heqx. subst b.
   destruct (rev post) as [|l rp] eqn:E; apply (f_equal (@rev item)) in E; rewrite rev_involutive in E; subst post; simpl.
-  - apply Permutation_middle.
+  - apply Permutation_cons_append.
   - etransitivity; [|apply Permutation_middle]. constructor.
     apply Permutation_app_head. apply Permutation_cons_append.
 Qed.
